@@ -5,4 +5,7 @@ cd "$(dirname "$0")"
 export CARGO_NET_OFFLINE=true CARGO_TARGET_DIR="$PWD/.target"
 mkdir -p .work evidence/replay
 ( cd harness && cargo build --offline --release --quiet && cargo build --offline --profile checked --quiet )
+
+# warm the Miri build of the C16 sanitizer workload (sysroot + crate); failure here is not fatal for the other checks
+( cd miri && MIRIFLAGS="-Zmiri-num-cpus=1" CARGO_TARGET_DIR="$PWD/../.target/miri" cargo +nightly miri run --offline --quiet -- 1 1 >/dev/null 2>&1 ) || echo "warning: miri warm-up failed"
 echo "setup ok"
